@@ -1,6 +1,7 @@
 import Driver.OpsRead
 import TT.RunAnalysis
 import TT.Run
+import TT.RunSrc
 namespace Driver
 open TT TT.Tree TT.Spec
 
@@ -36,8 +37,50 @@ def decodeFile (fmt : String) (v4 : Bool) (lines : List Str) : Option (List (Opt
       (decTiger g).map fun s => (strToNat? s.sid, s.tree)
   | _ => none
 
+/-- the source of a command: the text of the file, or the element structure of a TIGER-XML document -/
+def decSource (srcfmt src : String) : Option Source :=
+  match srcfmt with
+  | "export" => (decS src).map .export
+  | "brackets" => (decS src).map .brackets
+  | "discobrackets" => (decS src).map .discobrackets
+  | "tigerxml" => (decXSents src).map .tigerxml
+  | _ => none
+
+def encReport : Except Err AnalysisReport → String
+  | .error e => encErr e
+  | .ok (.gap nt nn pt pn) => s!"{nt} {nn} T {encAssoc pt} N {encAssoc pn}"
+  | .ok (.tags n) => toString n
+  | .ok (.sentences n) => toString n
+
 def runOpConvert (op : String) (args : List String) : String :=
   match op, args with
+  | "analysis_src", [task, srcfmt, srcopts, src] =>
+    -- `treetools treeanalysis SRC TASK --src-format F --src-opts ...`: TT.runAnalysisSrc (TT/RunSrc.lean; theorems in
+    -- TT/Props/C16Src.lean)
+    match decSource srcfmt src, analysisTask? task with
+    | some s, some tk => encReport (TT.runAnalysisSrc tk (decInOpts srcopts) s)
+    | _, _ => bad
+  | "transitions_src", [srcfmt, srcopts, sys, pos, calls, src] =>
+    let cs := if calls == "" then [] else (calls.splitOn ";").map parseTCall
+    let sy : Option TransSys := match sys with
+      | "topdown" => some .topdown | "inorder" => some .inorder | "gap" => some .gap | _ => none
+    match decSource srcfmt src, sy with
+    | some s, some sy =>
+      match TT.runTransitionsSrc (cs.map fun c => applyT c) sy (pos == "t") (decInOpts srcopts) s with
+      | .ok ls => if ls.isEmpty then "EMPTY" else "|".intercalate (ls.map encS)
+      | .error e => encErr e
+    | _, _ => bad
+  | "grammar_src", [srcfmt, srcopts, gramtype, markov, destfmt, lig, src] =>
+    let gt : Option GramType := match gramtype with
+      | "treebank" => some .treebank | "leftright" => some .leftright | "optimal" => some .optimal | _ => none
+    match decSource srcfmt src, gt, decMarkov markov with
+    | some s, some gt, some mo =>
+      match TT.runGrammarSrc gt mo (decInOpts srcopts) s with
+      | .error e => encErr e
+      | .ok (g, l) =>
+        let (a, b) := if destfmt == "pmcfg" then writePmcfg (lig == "t") g l else writeRcg (lig == "t") g l
+        encLines a ++ " # " ++ (match b with | some b => encLines b | none => "none")
+    | _, _, _ => bad
   | "analysis_cli", [task, src] =>
     -- the whole `treetools treeanalysis SRC TASK` on an export source: TT.runAnalysis (reader, the task's accumulator
     -- over the trees in file order, the numbers of the report; theorems in TT/Props/C16Run.lean), printed in the form the
@@ -52,12 +95,7 @@ def runOpConvert (op : String) (args : List String) : String :=
     | _, _ => bad
   | "convert", [srcfmt, srcopts, destfmt, destopts, enc, src] =>
     let io := decInOpts srcopts
-    let trees : Option (Except Err (List (Nat × Tree))) := match srcfmt with
-      | "export" => (decS src).map (readExport io)
-      | "brackets" => (decS src).map (readBrackets io)
-      | "discobrackets" => (decS src).map (readBrackets { io with disco := true })
-      | "tigerxml" => (decXSents src).map (readTiger io)
-      | _ => none
+    let trees : Option (Except Err (List (Nat × Tree))) := (decSource srcfmt src).map (readSrc io)
     match trees with
     | none => bad
     | some (.error e) => encErr e
@@ -69,12 +107,7 @@ def runOpConvert (op : String) (args : List String) : String :=
     -- (each occurrence once); a tree for which a call returns None is not written
     let io := decInOpts srcopts
     let cs := if calls == "" then [] else (calls.splitOn ";").map parseTCall
-    let trees : Option (Except Err (List (Nat × Tree))) := match srcfmt with
-      | "export" => (decS src).map (readExport io)
-      | "brackets" => (decS src).map (readBrackets io)
-      | "discobrackets" => (decS src).map (readBrackets { io with disco := true })
-      | "tigerxml" => (decXSents src).map (readTiger io)
-      | _ => none
+    let trees : Option (Except Err (List (Nat × Tree))) := (decSource srcfmt src).map (readSrc io)
     match trees with
     | none => bad
     | some (.error e) => encErr e
@@ -89,12 +122,7 @@ def runOpConvert (op : String) (args : List String) : String :=
     -- `treetools transform SRC DEST --split spec ...`: the text of every part, in order (TT.runSplitFrom)
     let io := decInOpts srcopts
     let cs := if calls == "" then [] else (calls.splitOn ";").map parseTCall
-    let trees : Option (Except Err (List (Nat × Tree))) := match srcfmt with
-      | "export" => (decS src).map (readExport io)
-      | "brackets" => (decS src).map (readBrackets io)
-      | "discobrackets" => (decS src).map (readBrackets { io with disco := true })
-      | "tigerxml" => (decXSents src).map (readTiger io)
-      | _ => none
+    let trees : Option (Except Err (List (Nat × Tree))) := (decSource srcfmt src).map (readSrc io)
     match trees, destFmt? destfmt, decS spec with
     | some ts, some f, some sp =>
       match TT.runSplitFrom (cs.map fun c => applyT c) f (decOutOpts destopts) (if enc == "n" then none else decS enc) sp ts with
